@@ -100,7 +100,7 @@ def replay_emit(x, top=True):
     return M.emit(x, False)
 
 
-def replay_text(it, exp, got):
+def replay_text(it, exp, got, variant="fast"):
     fname, args = it
     real = fname[2:] if fname.startswith("u/") else fname
     lines = [FNS_SRC, "", "(def args @[])"]
@@ -109,6 +109,9 @@ def replay_text(it, exp, got):
             lines.append("(array/push args (in args %d))   # the same object as argument %d" % (a.k, a.k))
         else:
             lines.append("(array/push args %s)" % replay_emit(a))
+    if variant != "fast":
+        lines.append("# observed with the %s build after trimming capacities to the lengths (capacity == count):" % variant)
+        lines.append("(each a args (case (type a) :array (array/trim a) :buffer (buffer/trim a)))")
     lines.append("(def r (protect (%s ;args)))" % real)
     lines.append('(printf "%s -> %%q" r)' % real.replace("%", "%%"))
     lines.append('(printf "arguments after the call: %q" args)')
@@ -252,7 +255,7 @@ class Runner:
                 env = {"C17_TRIM": "1"} if v != "fast" else {"C17_TRIM": "0"}
                 # run_batch allows timeout * (1 + items/200) per process: a chunk normally takes 1-10 s
                 results[v] = run_batch(v, DRIVER, texts, env=env, chunk=chunk if v == "fast" else max(200, chunk // 4),
-                                       timeout=8 if v == "fast" else 30)
+                                       timeout=20 if v == "fast" else 60)
             ths = [threading.Thread(target=work, args=(v,)) for v in variants]
             for th in ths:
                 th.start()
@@ -284,7 +287,7 @@ class Runner:
                             "(no prediction)" if e[0] == "S" else (e[1] if e[0] == "R" else " or ".join(sorted(e[1] or ["E (any state)"]))),
                             text if status == "OK" else status + " " + crash_summary(text))
                         chk.violation(sig=sig, what=what.replace("\t", " | "),
-                                      replay_text=replay_text(x, (e[1] or "raises") if e[0] != "S" else "no crash", text if status == "OK" else status),
+                                      replay_text=replay_text(x, (e[1] or "raises") if e[0] != "S" else "no crash", text if status == "OK" else status, v),
                                       replay_cmd="janet <this file>   (crash classes: build janet with -fsanitize=address)")
             n += len(block)
             if first is None:
@@ -308,6 +311,14 @@ def main():
     chk.assume("the canonical printer of engine/drv/prelude.janet and the Janet parser are correct for the small values used")
     chk.assume("reference definitions are restated from the docstrings; conventions where they are silent are listed in NOTES.md")
     chk.assume("error message texts are not compared")
+    if chk.args.replay:
+        # --replay <file>: run a replay file with the real interpreter (fast and asan builds) and show what it prints
+        for v in ("fast", "asan"):
+            res = run_script(v, open(chk.args.replay).read(), timeout=120)
+            print("--- %s build: rc=%s" % (v, res.rc))
+            sys.stdout.write(res.out.decode(errors="replace"))
+            sys.stdout.write(crash_summary(res.err.decode(errors="replace")) + "\n" if res.err else "")
+        sys.exit(0)
     r = Runner(chk)
     P.FNS_SRC_HOLDER[0] = FNS_SRC
     P.run_all(chk, r)
